@@ -24,7 +24,8 @@ type Mutant struct {
 	ExpectRule string `json:"expect_rule"`
 	ExpectKey  string `json:"expect_key,omitempty"`
 	Note       string `json:"note,omitempty"`
-	Nth        int    `json:"nth,omitempty"` // replace the nth occurrence (1-based); 0 = the fragment must be unique
+	Nth        int    `json:"nth,omitempty"`          // replace the nth occurrence (1-based); 0 = the fragment must be unique
+	Append     string `json:"extra_append,omitempty"` // text appended to the file (helper functions of a variant)
 }
 
 // replaceNth replaces the nth (1-based) occurrence of old in s.
@@ -130,7 +131,7 @@ func runSelftest(repo, verif string, def *PropDef, kf *KFFile) SelftestResult {
 			st.Details = append(st.Details, map[string]any{"variant": "mutant:" + m.Name, "status": "stale (fragment not found exactly once in " + m.File + ")"})
 			continue
 		}
-		ov := map[string][]byte{abs: []byte(mutated)}
+		ov := map[string][]byte{abs: []byte(mutated + m.Append)}
 		det, fired, err := runVariant(repo, ov, def, kf, base, m.ExpectRule, m.ExpectKey)
 		d := map[string]any{"variant": "mutant:" + m.Name, "file": m.File, "expect_rule": m.ExpectRule, "expect_key": m.ExpectKey, "fired": fired}
 		if err != nil {
